@@ -68,6 +68,16 @@ CHECKS = {
     category='exploration', design='4/C10',
     text="~390 Term/Obj.symmetry calls (all / only_contracted / only_target, denominators, bra-ket symmetries, exponents), ~115 exploit_perm_sym and ~30 LazyTermMap cases on (anti)symmetrised expressions, 110 multi-term expressions through all five sort.by_* functions and filter_tensor (880 calls) per quick run, plus the ADC(2) ph/ph matrix and MP2 density of the repository's tests.",
     note="Trusted: TM evaluator, numpy swapaxes composition. Terms for the unrestricted symmetry mode keep <= 4 index occurrences per (space, spin): the library's enumeration is factorial."),
+ 'C16': dict(
+    technique="runtime monitor: offline checker over the returned contraction scheme (exactly-once use of operands and inner results, index conservation, limits, recomputed scaling) + step-by-step execution on F_p tensor-model arrays",
+    category='exploration', design='4/C16',
+    text="~400 generated terms per quick run (1-6 objects, exponents, traces, outer products, disconnected groups, hyper-contractions, deltas, symbols, shuffled target orders, spin-labelled targets, all limit settings incl. infeasible ones); optimize_contractions and unoptimized_contraction audited and executed.",
+    note="Trusted: TM evaluator; operands matched to the term's objects by index tuple. Only the computational part of 'maximal scaling never worse than the single simultaneous contraction' is checked (an inner result may legitimately need more memory than the final result)."),
+ 'C17': dict(
+    technique="runtime monitor / translation validation: every emitted program (einsum and libtensor syntax) is parsed and executed by an independent interpreter (vlib/codeinterp.py) on F_p tensor-model blocks and compared with the TM value of the source expression",
+    category='translation_validation', design='4/C17',
+    text="~450 expressions per quick run -> ~500 emitted contraction lines (programs), both backends, optimised and unoptimised schemes, limits, target strings with/without ',', bra-ket symmetry, (anti)symmetric result tensor, permutation operators applied as axis transpositions with the printed signs.",
+    note="Trusted: the interpreter (~350 lines) and its reverse naming table; index strings tokenised letter+digits. Square-root prefactors are refused by the library under sympy >= 1.13 (NotImplementedError) and therefore only counted."),
 }
 
 NOT_YET = {}
